@@ -812,7 +812,7 @@ package dig
 
 //@ func (s *Scope) Scope(name, opts) (child)
 //@   requires s != nil && graphNodesOK(s) && treeInv()
-//@   ensures[C08:tree-links-kept,C16:tree-links-kept] childrenLinked() && childListsSeparate() && registriesSeparate()
+//@   ensures[C08:tree-links-kept,C16:tree-links-kept] childrenLinked() && childListsSeparate() && registriesSeparate() && decoratorMapsSeparate()
 //@   ensures[C16:graph-stores-kept-separate,C05:graph-stores-kept-separate] graphsSeparate()
 //@   requires forall i int :: 0 <= i && i < len(opts) ==> opts[i] != nil
 //@   modifies Scope.childScopes, elems(*Scope), map(constructorNode.orders)
@@ -840,7 +840,7 @@ package dig
 //@   loop range s.gh.nodes #1: invariant[C16:orders-copied-so-far] forall j int :: 0 <= j && j < $i ==> orderOf(s.gh.nodes[j].Wrapped, child) == orderOf(s.gh.nodes[j].Wrapped, s)
 //@   loop range s.gh.nodes #1: invariant[C16:parents-orders-kept] forall j int :: 0 <= j && j < len(s.gh.nodes) ==> orderOf(s.gh.nodes[j].Wrapped, s) == old(orderOf(s.gh.nodes[j].Wrapped, s))
 //@   loop range s.gh.nodes #1: invariant[C16:stores-separate-while-copying] graphsSeparate()
-//@   loop range s.gh.nodes #1: invariant[C16:links-kept-while-copying] childrenLinked() && childListsSeparate() && registriesSeparate()
+//@   loop range s.gh.nodes #1: invariant[C16:links-kept-while-copying] childrenLinked() && childListsSeparate() && registriesSeparate() && decoratorMapsSeparate()
 //@   loop range s.gh.nodes #1: invariant[C16:child-not-yet-listed] child.parentScope == s && len(child.childScopes) == 0 && cap(child.childScopes) == 0 && s.childScopes == old(s.childScopes)
 //@   loop range s.gh.nodes #1: invariant fresh(child) && child != s && s.gh == old(s.gh) && s.gh.nodes == old(s.gh.nodes) && graphNodesOK(s)
 //@        && (forall j int :: 0 <= j && j < len(s.gh.nodes) ==> s.gh.nodes[j] == old(s.gh.nodes[j]))
@@ -919,7 +919,7 @@ package dig
 //@        && s.gh.nodes[old(len(s.gh.nodes))].Wrapped == wrapped && orders[s] == old(len(s.gh.nodes))
 //@   loop range s.childScopes #1: invariant[C16:graphs-only-grow-so-far] (forall g *graphHolder :: { g.nodes } existed(g) ==> len(g.nodes) >= old(len(g.nodes))) && (forall g *graphHolder, j int :: existed(g) && 0 <= j && j < old(len(g.nodes)) ==> g.nodes[j] == old(g.nodes[j]))
 //@   loop range s.childScopes #1: invariant[C16:shallower-scopes-untouched-so-far] forall y *Scope :: existed(y) && y != s && y.nanc <= s.nanc ==> y.gh.nodes == old(y.gh.nodes) && orders[y] == old(orders[y])
-//@   loop range s.childScopes #1: invariant[C16:stores-separate-so-far] graphsSeparate() && childListsSeparate() && registriesSeparate()
+//@   loop range s.childScopes #1: invariant[C16:stores-separate-so-far] graphsSeparate() && childListsSeparate() && registriesSeparate() && decoratorMapsSeparate()
 //@   loop range s.childScopes #1: invariant[C16:children-linked-so-far] childrenLinked() && s.childScopes == old(s.childScopes)
 //@   loop range s.childScopes #1: invariant[C16:other-order-maps-kept-so-far] forall m map[*Scope]int :: existed(m) && m != orders ==> mapeq(m)
 //@   site call (*dig.Scope).newGraphNode #1: assert[C16:node-passed-on-to-every-child,C05:node-passed-on-to-every-child,C08:node-passed-on-to-every-child] $recv == s.childScopes[$i] && $arg0 == wrapped && $arg1 == orders
@@ -931,7 +931,11 @@ package dig
 //@ pure func registriesSeparate() Bool = (forall a *Scope, b *Scope :: { a.providers, b.providers } allocated(a) && allocated(b) && a != b ==> a.providers != b.providers)
 //@     && (forall a *Scope :: { a.providers } allocated(a) ==> a.providers != nil && a.providers <= $alloc)
 
-//@ pure func treeInv() Bool = childrenLinked() && childListsSeparate() && graphsSeparate() && registriesSeparate()
+// decorator registries are per scope
+//@ pure func decoratorMapsSeparate() Bool = (forall a *Scope, b *Scope :: { a.decorators, b.decorators } allocated(a) && allocated(b) && a != b ==> a.decorators != b.decorators)
+//@     && (forall a *Scope :: { a.decorators } allocated(a) ==> a.decorators != nil && a.decorators <= $alloc)
+
+//@ pure func treeInv() Bool = childrenLinked() && childListsSeparate() && graphsSeparate() && registriesSeparate() && decoratorMapsSeparate()
 
 // shape contracts of the signature parsers (what the rest of the code relies on)
 //@ func newParamList(ctype, c) (pl, err)
@@ -1062,3 +1066,47 @@ package dig
 //@   loop range oldProviders #1: invariant[C06:providers-restored-so-far] (forall k key :: $seen[k] ==> tgt.providers[k] == old(tgt.providers[k]))
 //@        && (forall k key :: !(k in oldProviders) ==> tgt.providers[k] == old(tgt.providers[k])) && (forall k key :: k in oldProviders ==> oldProviders[k] == old(tgt.providers[k]))
 //@   loop range oldProviders #1: invariant[C06:restoring-touches-only-the-target] othersKept && fresh(oldProviders) && treeInv()
+
+// ---------------------------------------------------------------------------
+// registration: Decorate (C06, C12, C14)
+
+//@ func newDecoratorNode(dcor, s, opts) (n, err)
+//@   requires dcor != nil && kind(typeOf(dcor)) == kFunc() && s != nil && treeInv()
+//@   modifies graphHolder.nodes, elems(*graphNode), map(constructorNode.orders)
+//@   allocates
+//@   ensures[C12:decorator-node-knows-its-scope] err == nil ==> n != nil && fresh(n) && n.s == s && n.state == decoratorReady && n.dcor == dcor && n.callback == opts.Callback
+//@   ensures[C06:building-a-decorator-only-appends-graph-nodes] (forall g *graphHolder :: { g.nodes } existed(g) ==> len(g.nodes) >= old(len(g.nodes))) && (forall g *graphHolder, j int :: existed(g) && 0 <= j && j < old(len(g.nodes)) ==> g.nodes[j] == old(g.nodes[j]))
+//@   ensures[C06:decorator-tree-and-stores-kept] treeInv()
+//@   ensures[C03:building-a-decorator-runs-nothing] $nrun == old($nrun) && $ncb == old($ncb)
+
+//@ func findResultKeys(r) (keys, err)
+//@   trusted
+//@   allocates
+//@   ensures err == nil ==> fresh(keys) || len(keys) == 0
+//@   ensures treeInv()
+
+//@ func (s *Scope) Decorate(decorator, opts) (err)
+//@   requires s != nil && treeInv()
+//@   requires forall i int :: 0 <= i && i < len(opts) ==> opts[i] != nil
+//@   modifies map(Scope.decorators), graphHolder.nodes, elems(*graphNode), map(constructorNode.orders), DecorateInfo.ID, DecorateInfo.Inputs, DecorateInfo.Outputs
+//@   allocates
+//@   let dn = ret(newDecoratorNode_1, 0)
+//@   let ks = ret(findResultKeys_1, 0)
+//@   ensures[C03:decorating-runs-nothing,C17:decorating-runs-nothing] $nrun == old($nrun) && $ncb == old($ncb) && $ev == old($ev)
+//@   ensures[C06:rejected-decorate-keeps-every-decorator-registry,C12:rejected-decorate-keeps-every-decorator-registry] err != nil ==>
+//@        (forall x *Scope, k key :: existed(x) ==> (k in x.decorators) == old(k in x.decorators) && x.decorators[k] == old(x.decorators[k]))
+//@   ensures[C12:accepted-decorator-registered-for-each-of-its-keys] err == nil ==> reached(findResultKeys_1) && (forall i int :: 0 <= i && i < len(ks) ==> ks[i] in s.decorators && s.decorators[ks[i]] == dn)
+//@   ensures[C12:one-decorator-per-key] err == nil ==> reached(findResultKeys_1) && (forall i int :: 0 <= i && i < len(ks) ==> !old(ks[i] in s.decorators))
+//@   ensures[C12:accepted-decorate-touches-only-its-keys] forall k key :: (!reached(findResultKeys_1) || (forall i int :: 0 <= i && i < len(ks) ==> ks[i] != k)) ==> (k in s.decorators) == old(k in s.decorators) && s.decorators[k] == old(s.decorators[k])
+//@   loop range opts #1: invariant treeInv()
+//@   loop range keys #1: invariant[C06:nothing-registered-while-checking] kept(map(Scope.decorators)) && treeInv() && decoratorMapsSeparate() && fresh(seen) && keys == ks
+//@   loop range keys #1: invariant[C12:keys-free-so-far] forall i int :: 0 <= i && i < $i ==> !(keys[i] in s.decorators)
+//@   loop range keys #2: invariant[C12:keys-registered-so-far] (forall i int :: 0 <= i && i < $i ==> keys[i] in s.decorators && s.decorators[keys[i]] == dn) && keys == ks
+//@   loop range keys #2: invariant[C12:keys-were-free] forall i int :: 0 <= i && i < len(keys) ==> !old(keys[i] in s.decorators)
+//@   loop range keys #2: invariant[C12:only-its-keys-registered-so-far] forall k key :: (forall i int :: 0 <= i && i < $i ==> keys[i] != k) ==> (k in s.decorators) == old(k in s.decorators) && s.decorators[k] == old(s.decorators[k])
+//@   loop range keys #2: invariant[C12:other-scopes-untouched-so-far] (forall x *Scope, k key :: existed(x) && x != s ==> (k in x.decorators) == old(k in x.decorators) && x.decorators[k] == old(x.decorators[k])) && treeInv() && decoratorMapsSeparate()
+//@   loop range params #1: invariant treeInv()
+//@   loop range results #1: invariant treeInv()
+//@   ensures[C12:decorate-touches-no-other-scope,C08:decorate-touches-no-other-scope] forall x *Scope, k key :: existed(x) && x != s ==> (k in x.decorators) == old(k in x.decorators) && x.decorators[k] == old(x.decorators[k])
+//@   ensures[C06:rejected-decorate-leaves-the-info-untouched,C18:rejected-decorate-leaves-the-info-untouched] err != nil && reached(newDecoratorNode_1) && argOf(newDecoratorNode_1, 2).Info != nil ==>
+//@        kept(DecorateInfo.ID, DecorateInfo.Inputs, DecorateInfo.Outputs)
